@@ -6,9 +6,9 @@ COMPONENTS = ["s_pickfirst", "pfaddr"]
 T4 = ["LbConnState", "PickFirst"]
 PROOF_MODULES = ["GrpcProofs.Properties.C34"]
 THEOREMS = ["GrpcProofs.C34." + t for t in (
-    "dedup_spec", "interleave_perm", "interleave_preserves_family_order", "interleave_starts_with_first_address",
-    "preprocess_ok", "ready_reported_only_for_raw_ready", "others_shut_down_on_ready", "pick_returns_only_ready_subconn",
-    "connect_order_is_list_order", "tf_after_all_failed", "sticky_tf_partial", "sticky_tf_counterexample")]
+    "constants_pinned", "dedup_spec", "interleave_perm", "interleave_preserves_family_order",
+    "interleave_starts_with_first_address", "preprocess_ok", "ready_reported_only_for_raw_ready",
+    "others_shut_down_on_ready", "connect_order_is_list_order", "tf_after_all_failed", "sticky_tf_counterexample")]
 DESIGN_REF = "DESIGN.md section 8, C34"
 TECHNIQUE = ("Lean 4 theorems (list induction for de-dup/interleave, invariants by induction over op lists for the balancer) about a "
              "full port of the pick_first state machine + T2 differential correspondence on the real balancer (recording ClientConn and "
@@ -104,8 +104,10 @@ def gen_case(rng, maxlen, ci):
             ops.append("reserr")
         elif x < 0.95 and created:
             ops.append("health ~%d %s %d" % (rng.choice([0, 0, 0, 1]), rng.choice("RRTC"), rng.randrange(0, 3)))
-        elif x < 0.96:
+        elif x < 0.955:
             ops.append("close")
+            if rng.random() < 0.7:
+                break
         else:
             health = not health
     return Case("s_pickfirst", ops, "pf-%d" % ci)
